@@ -63,9 +63,13 @@ var (
 )
 
 // vhNewX builds the PeerConnection under test: one audio transceiver and one data channel.
-func vhNewX(tb testing.TB) *PeerConnection {
+func vhNewX(tb testing.TB, cfg ...*Configuration) *PeerConnection {
 	tb.Helper()
-	pc := vNewPC(tb, vNewAPI(tb, vAPIOpts{virtualNet: true}), nil)
+	var xcfg *Configuration
+	if len(cfg) > 0 {
+		xcfg = cfg[0]
+	}
+	pc := vNewPC(tb, vNewAPI(tb, vAPIOpts{virtualNet: true}), xcfg)
 	if _, err := pc.AddTransceiverFromKind(RTPCodecTypeAudio); err != nil {
 		vkit.Fatalf(tb, "AddTransceiverFromKind: %v", err)
 	}
@@ -135,6 +139,27 @@ var vhMutations = []string{
 	"drop-mid-0", "drop-mid-last", "drop-ufrag", "drop-pwd", "drop-fingerprint", "fingerprint-1-field",
 	"fingerprint-3-fields", "payload-non-numeric", "fmtp-apt-x", "extmap-malformed", "candidate-invalid",
 	"truncated-mid-line", "no-version-line", "empty-ufrag",
+}
+
+// vhTwoTracks adds a second a=ssrc / msid pair (another track) to the first audio or video section.
+func vhTwoTracks(sdpText string) string {
+	lines := strings.Split(strings.TrimRight(sdpText, "\r\n"), "\r\n")
+	var out []string
+	done, in := false, false
+	for i, l := range lines {
+		if strings.HasPrefix(l, "m=") {
+			in = strings.HasPrefix(l, "m=audio") || strings.HasPrefix(l, "m=video")
+		}
+		out = append(out, l)
+		last := i+1 == len(lines) || strings.HasPrefix(lines[i+1], "m=")
+		if in && !done && last {
+			out = append(out, "a=ssrc:777001 cname:vh-two", "a=ssrc:777001 msid:vh-stream-a vh-track-a",
+				"a=ssrc:777002 cname:vh-two", "a=ssrc:777002 msid:vh-stream-b vh-track-b")
+			done = true
+		}
+	}
+
+	return strings.Join(out, "\r\n") + "\r\n"
 }
 
 func vhMutate(sdpText, name string) string {
@@ -355,10 +380,10 @@ func vhErrClass(err error) string {
 }
 
 // vhReplay runs the history on a fresh PeerConnection and evaluates all oracles at every step.
-func vhReplay(tb testing.TB, hist []vhOp) *vhRun {
+func vhReplay(tb testing.TB, hist []vhOp, cfg ...*Configuration) *vhRun {
 	tb.Helper()
 	pool := vhGetPool(tb)
-	x := vhNewX(tb)
+	x := vhNewX(tb, cfg...)
 	run := &vhRun{Model: vhModel{State: "stable"}}
 	ev := &vhEvents{byStep: map[int][]string{}}
 	curStep := -1
@@ -420,6 +445,10 @@ func vhReplay(tb testing.TB, hist []vhOp) *vhRun {
 			sdpText = pool.answer
 		case op.Side == "R" && op.Src == "pool2":
 			sdpText = pool.answer2
+		case op.Side == "R" && strings.HasPrefix(op.Src, "twotracks+mut:"):
+			// the peer's audio+video+application offer with a SECOND track announced in its first media section
+			// (ordinary numeric mids), then one deviation
+			sdpText = vhMutate(vhTwoTracks(pool.offer2), strings.TrimPrefix(op.Src, "twotracks+mut:"))
 		case op.Side == "R" && strings.HasPrefix(op.Src, "mut:"):
 			base := pool.answer
 			if op.Type == "offer" {
